@@ -297,7 +297,7 @@ pub fn load_findings() -> Vec<Finding> {
             }
         }
         let re = |s: &str| regex::Regex::new(&format!("^(?:{s})$")).unwrap_or_else(|e| {
-            eprintln!("MACHINERY: bad regex in KNOWN_FINDINGS.txt: {s}: {e}");
+            println!("MACHINERY: bad regex in KNOWN_FINDINGS.txt: {s}: {e}");
             std::process::exit(2)
         });
         v.push(Finding {
@@ -375,6 +375,15 @@ pub fn run_check(check: &dyn Check, tier: Tier) -> i32 {
     let t0 = Instant::now();
     let info = check.info(tier);
     crate::world::install_panic_hook_quiet();
+    if std::env::var("VERIF_DEBUG").is_err() {
+        // the engine prints task errors with eprintln!; everything this program reports goes to stdout
+        unsafe {
+            let fd = libc::open(c"/dev/null".as_ptr(), libc::O_WRONLY);
+            if fd >= 0 {
+                libc::dup2(fd, 2);
+            }
+        }
+    }
     let mut items = check.items(tier);
     let n = items.len();
     if std::env::var("VERIF_DEBUG").is_ok() {
